@@ -17,7 +17,9 @@ func universalByName(name string) *Database {
 	case "B2":
 		return universalB("B2", poolB, 2, 0xC000)
 	case "K":
-		return universalK()
+		return universalK(true)
+	case "Kq":
+		return universalK(false)
 	}
 	return nil
 }
@@ -105,7 +107,10 @@ func plan(cfg genConfig) (map[string]*Database, []caseSpec) {
 		add("chain3", q, B, uw[1], universalLimit, "simple", "search")
 	}
 	// attribute names colliding with intrinsics / special-cased words, every scope spelling, every position
-	K := universalByName("K")
+	K := universalByName("Kq")
+	if cfg.thorough {
+		K = universalByName("K")
+	}
 	dbs[K.Name] = K
 	for _, kc := range keywordCases(cfg.thorough) {
 		mode := kc.mode
